@@ -336,3 +336,4 @@ func hashBytes(c *Case) uint64 {
 	}
 	return h
 }
+
